@@ -177,7 +177,9 @@ params = st.fixed_dictionaries({}, optional={"kid": st.sampled_from(["k1", "é"]
 key_case = st.fixed_dictionaries({"kind": st.just("key"), "key": any_key().map(gk.key_to_record), "form": st.sampled_from(["dict", "pem", "der", "registry"]), "params": params})
 jws_case = st.fixed_dictionaries({"kind": st.just("jws"), "plan": jwsplan.plans(utf8_only=True), "keymode": st.sampled_from(jwsplan.KEYMODES), "form": st.sampled_from(KEYFORMS)})
 jwe_case = st.fixed_dictionaries({"kind": st.just("jwe"), "plan": jweplan.plans(small=True), "keymode": st.sampled_from(["attached", "keyset", "callable"]),
-                                  "form": st.sampled_from(KEYFORMS), "jwt": st.booleans()})
+                                  "form": st.sampled_from(KEYFORMS), "jwt": st.booleans(),
+                                  # JSON serializations: the caller presets Recipient.ephemeral_key (a key object with kid / use parameters)
+                                  "preset_epk": st.booleans()})
 
 
 gen_case = st.fixed_dictionaries({
@@ -381,7 +383,7 @@ def run_jwe(c) -> tuple:
                 tok = jwt.encode(hdr, {"sub": "a"}, key, registry=jwe.JWERegistry(algorithms=jweplan.ALL_NAMES))
                 kinds = ["jwe-token", "jwt"]
             else:
-                tok = jweplan.jose_encrypt(plan, c["keymode"], c["form"])
+                tok = jweplan.jose_encrypt(plan, c["keymode"], c["form"], preset_epk=bool(c.get("preset_epk")))
         except Exception:
             return {}, []
     eph = cap.secrets()
